@@ -24,6 +24,20 @@ func Root[T signal.SignalTypes](C, K int) *signal.Buffer[T] {
 	return r
 }
 
+// RootPooled is Root with the buffer taken from a pool allocator, after one round trip of a
+// buffer through that pool: where a buffer came from must not change how it behaves.
+func RootPooled[T signal.SignalTypes](C, K int) *signal.Buffer[T] {
+	pool := signal.PoolAlloc[T](signal.Allocator{Channels: C, Length: K, Capacity: K})
+	first := pool.Get()
+	first.AppendSample(1)
+	pool.Put(first)
+	b := pool.Get()
+	for i := 0; i < b.Len(); i++ {
+		b.SetSample(i, T(Sentinel(i)))
+	}
+	return b
+}
+
 // RootModel is the plain-slice model of Root's storage.
 func RootModel[T signal.SignalTypes](C, K int) []T {
 	m := make([]T, C*K)
